@@ -1,6 +1,74 @@
-(* C17 - placeholder until Proofs/ToolsFacts.v lands. *)
-From Coq Require Import List.
-From BB Require Import Base.Names.
-Theorem C17_placeholder : forall l, NoDup (uniquify l).
-Proof. exact uniquify_NoDup. Qed.
-Print Assumptions C17_placeholder.
+(* C17 - parameter sweeps change exactly the addressed values, step by step.
+   Only statements; every proof is `exact <lemma>` into Proofs/ToolsFacts.v. *)
+From Coq Require Import String List ZArith QArith Qabs Bool.
+From BB Require Import Base.Names Base.Num Base.PyList Model.Types Model.Blueprint Model.Forge Model.Element
+  Model.PyVal Model.Sequence Model.Tools Proofs.ToolsFacts.
+Import ListNotations.
+
+(* one variation step is the name-addressed edit of C05 on that channel's blueprint - 'duration' selects
+   changeDuration, anything else changeArg - so by C05's frame theorems nothing else changes *)
+Theorem C17_step_is_edit : forall e c n a v,
+  el_vary e c n a v = (if is_duration a then el_change_dur e c n v false else el_change_arg e c n a v false).
+Proof. exact step_is_edit. Qed.
+
+(* makeVaryingSequence: M positions 1..M at the base element's sample rate, consistent, position m+1 being the base
+   element with the m-th value of every variation applied (in the order given: for the same address the last wins) *)
+Theorem C17_make_varying : forall base cs ns ars its s it0,
+  make_varying base cs ns ars its = Ok s -> hd_error its = Some it0 ->
+  let vs := combine cs (combine ns (combine ars its)) in
+  length (sdata s) = length it0 /\
+  seq_check s = Ok true /\
+  (exists SR, el_sr base = Ok SR /\ seq_SR s = SR) /\
+  forall m, (m < length it0)%nat ->
+    exists e, alookup Z.eqb (Z.of_nat m + 1) (sdata s) = Some (EElem e) /\ apply_steps base vs m = Ok e.
+Proof. exact make_varying_spec. Qed.
+
+(* mismatched list lengths are rejected with ValueError (after the base element validated) *)
+Theorem C17_length_mismatch : forall base cs ns ars its,
+  (exists r, el_validate base = Ok r) ->
+  (~ (length cs = length ns /\ length ns = length ars /\ length ars = length its) \/
+   (exists a b, In a its /\ In b its /\ length a <> length b)) ->
+  make_varying base cs ns ars its = Err EValue.
+Proof. exact varying_length_mismatch. Qed.
+
+Theorem C17_repeat_length_mismatch : forall sq ps cs ns ars its,
+  seq_check sq = Ok true ->
+  ~ (length ps = length cs /\ length cs = length ns /\ length ns = length ars /\ length ars = length its) ->
+  repeat_and_vary sq ps cs ns ars its = Err EValue.
+Proof. exact repeat_length_mismatch. Qed.
+
+(* repeatAndVarySequence: the concatenation over m of copies of seq with the m-th values applied, starting from an
+   empty sequence carrying seq's AWG settings *)
+Theorem C17_repeat : forall sq ps cs ns ars its r it0,
+  repeat_and_vary sq ps cs ns ars its = Ok r -> hd_error its = Some it0 ->
+  let vars := map (fun x : Z * (chan * (str * (argref * list val))) =>
+                     let '(p, (c, (n, (a, vs)))) := x in mkVar p c n a vs)
+                  (combine ps (combine cs (combine ns (combine ars its)))) in
+  exists steps, mapM (apply_variations sq vars) (List.seq 0 (length it0)) = Ok steps /\
+    fold_left (fun acc t => match acc with Ok x => seq_add x t | Err e => Err e end) steps
+              (Ok (mkSeq [] [] (sspecs sq) [])) = Ok r.
+Proof. exact repeat_spec. Qed.
+
+(* makeLinearlyVaryingSequence: round(|stop-start|/step)+1 equidistant values from start to stop inclusive *)
+Theorem C17_linspace : forall start stop n,
+  (2 <= n)%Z ->
+  length (linspace start stop n) = Z.to_nat n /\
+  (forall k, (k < Z.to_nat n)%nat ->
+     exists v, nth_error (linspace start stop n) k = Some v /\
+               (v == start + inject_Z (Z.of_nat k) * ((stop - start) / inject_Z (n - 1)))%Q) /\
+  (exists v, nth_error (linspace start stop n) 0 = Some v /\ (v == start)%Q) /\
+  (exists v, nth_error (linspace start stop n) (Z.to_nat n - 1) = Some v /\ (v == stop)%Q).
+Proof. exact linspace_spec. Qed.
+
+Theorem C17_linear_count : forall base c n a start stop stp s,
+  make_linear base c n a start stop stp = Ok s ->
+  length (sdata s) = length (linspace start stop (rnd (Qabs (stop - start) / stp) + 1)).
+Proof. exact linear_count. Qed.
+
+Print Assumptions C17_step_is_edit.
+Print Assumptions C17_make_varying.
+Print Assumptions C17_length_mismatch.
+Print Assumptions C17_repeat_length_mismatch.
+Print Assumptions C17_repeat.
+Print Assumptions C17_linspace.
+Print Assumptions C17_linear_count.
